@@ -51,7 +51,7 @@ CLAIMED = {
         note=NOTE + "crate crc (table-driven Digest) as the bitwise Rocksoft model, compared on every frame",
         design="5 (C10)"),
     'C11': dict(
-        text="C11_to_io_is_encode / C11_to_io_failure / C11_writer_prefix (writer receives exactly the plain encoding; a failing writer gives an error and holds a prefix), C11_from_io_is_slice (reader path = slice path, reader left holding exactly the bytes after the message), C11_from_io_total (any failing reader, any scratch size: value or error, never a panic or a write outside the scratch), C11_scratch_slots (borrowed data in consecutive disjoint slots); C11_any_chunking_is_slice: for EVERY schedule by which a reader hands over its data piecewise (any chunk sizes, any interruptions), decoding through std's read_exact loop (modelled, IoChunks.v) equals slice decoding and consumes exactly the message; C11_any_schedule_total: with end-of-stream reports or failures at any call it is a value or an error and the loop terminates. The modelled loop is tied to the real one by replaying, event by event, what the harness's reader did on each run (op fromioc). Partial: write_all over partial writes and the embedded-io adapters are exercised / not built, not modelled; the harness drives real std::io readers/writers with 1-byte/short/whole schedules, interruptions and failure injection at every offset.",
+        text="C11_to_io_is_encode / C11_to_io_failure / C11_writer_prefix (writer receives exactly the plain encoding; a failing writer gives an error and holds a prefix), C11_from_io_is_slice (reader path = slice path, reader left holding exactly the bytes after the message), C11_from_io_total (any failing reader, any scratch size: value or error, never a panic or a write outside the scratch), C11_scratch_slots (borrowed data in consecutive disjoint slots); C11_any_chunking_is_slice: for EVERY schedule by which a reader hands over its data piecewise (any chunk sizes, any interruptions), decoding through std's read_exact loop (modelled, IoChunks.v) equals slice decoding and consumes exactly the message; C11_any_schedule_total: with end-of-stream reports or failures at any call it is a value or an error and the loop terminates. The modelled loop is tied to the real one by replaying, event by event, what the harness's reader did on each run (op fromioc). C11_any_write_chunking_is_encode / C11_any_write_schedule_total: the same for std's write_all loop over a writer that accepts data piecewise (op toioc). Partial: both loops are std's (modelled, tied by replay); the embedded-io adapters are not built; the harness drives real std::io readers/writers with 1-byte/short/whole schedules, interruptions and failure injection at every offset.",
         note=NOTE + "std::io::{Read::read_exact, Write::write_all, flush}; embedded-io adapters are not yet exercised",
         design="6 (C11)"),
     'C12': dict(
